@@ -69,6 +69,12 @@ where
             sched::step(sched::hs::THREAD_START);
             let r = std::panic::catch_unwind(std::panic::AssertUnwindSafe(body));
             crate::runner::set_in_call(false);
+            if r.is_err() {
+                // A panic that escaped an operation (a crate panic is reported by the panic hook as
+                // a C13 violation, a harness panic as a harness error). The other participants may
+                // wait for this thread for ever, and the state is undefined: end the shard here.
+                crate::runner::abort_after_panic();
+            }
             r.is_ok()
         })
         .expect("spawn worker")
